@@ -95,10 +95,13 @@ type Gen struct {
 	node   int
 	DidOver bool
 	OverCap int // largest over-limit encoding the generator may produce (bytes)
+	Force      int    // the Force-th limited node gets exactly ForceCount elements / bits / bytes (clipped to its limit); -1: none
+	ForceCount uint64
+	DidForce   bool   // the forced node exists and took ForceCount unclipped
 	Mode   int // 0 random, 1 minimal (all empty / zero), 2 maximal within budget
 }
 
-func NewGen(r *hx.Rng, budget int) *Gen { return &Gen{R: r, Left: budget, Over: -1} }
+func NewGen(r *hx.Rng, budget int) *Gen { return &Gen{R: r, Left: budget, Over: -1, Force: -1} }
 
 func (g *Gen) bytes(n int) []byte {
 	b := make([]byte, n)
@@ -131,6 +134,10 @@ func (g *Gen) count(limit uint64, minElem uint64) uint64 {
 			g.DidOver = true
 			return limit + 1
 		}
+	}
+	if g.Force == me {
+		g.DidForce = g.ForceCount <= limit
+		return minU(g.ForceCount, limit)
 	}
 	afford := uint64(1 << 20)
 	if minElem > 0 {
@@ -325,6 +332,9 @@ func (g *Gen) Tree(t *Ty) *Val {
 		if g.Over == me && t.N+1 <= 40000 {
 			n = t.N + 1
 			g.DidOver = true
+		} else if g.Force == me {
+			g.DidForce = g.ForceCount <= t.N
+			n = minU(g.ForceCount, t.N)
 		} else {
 			max := t.N
 			if g.Left < 600 {
